@@ -7,6 +7,7 @@ def spec(tier):
     q = tier == "quick"
     obs = [XH("S.contains_lines", F, "contains_lines", 200 if q else 900, what="Scope.check_definitions with FREE symbolic line numbers (module, CONTAINS line, two procedures): 'definition before CONTAINS' exactly for procedures whose line precedes CONTAINS, severity 1, 0-based line"),
            XH("S.use_implicit_lines", F, "use_implicit_lines", 200 if q else 900, what="Scope.check_use with FREE symbolic line numbers: 'USE after IMPLICIT' exactly when a USE line follows the IMPLICIT line, reported on the IMPLICIT line"),
+           XH("S.twice_lines", F, "twice_lines", 200 if q else 900, what="Scope.check_definitions with FREE symbolic line numbers: of two declarations of one name exactly the later one is flagged 'declared twice' (severity 1, 0-based line, related line = first declaration); different names: nothing"),
            XH("D.valid", F, "valid", 120, what="the valid two-module base program (lower and upper case, 0..3 blank lines above): no error-severity diagnostic is published")]
     obs += parts("D.seeded", F, "seeded", 11, 250 if q else 1500, path_timeout=200,
                  what="33 seeded variants covering the 15 documented defect classes at several positions (module / procedure / block / internal procedure / program / top of file / between units), x 0..3 blank lines above: the class's message with its severity on the offending line is PUBLISHED by the real server on didOpen, and no error of another class")
